@@ -127,6 +127,8 @@ def states(tier: str, prop: str):
     out += [("str", s) for s in gen.typed_specs(2 if tier == "quick" else 3)]
     # pre-states reached by a history: base tree, every accessor evaluated once, one change (gen.history_specs)
     out += [("str", s) for s in gen.history_specs(gen.plain_specs(2 if tier == "quick" else 3))]
+    # ids from a Tree subclass that overrides calc_data_id() (every tier; operations that bring in a tree of another class excluded)
+    out += [("keyedsub", s) for s in gen.plain_specs(3, min_n=2, alphabet=("a", "b"))]
     if tier == "thorough":
         for fl in ("int", "tuple", "dataclass", "dictwrapper", "keyed"):
             out += [(fl, s) for s in gen.plain_specs(3, alphabet=("a", "b"))]
@@ -288,7 +290,9 @@ def sweep(prop: str, tier: str) -> Result:
     for fl, s in st:
         by_flavour.setdefault(fl, []).append(s)
     for fl, specs in by_flavour.items():
-        total.merge(parallel(_run_chunk, specs, prop, groups, fl, prop=prop))
+        g_fl = tuple(g for g in groups if g not in ("addtree", "shortcut", "addnode")) if fl == "keyedsub" else groups
+        if g_fl:
+            total.merge(parallel(_run_chunk, specs, prop, g_fl, fl, prop=prop))
     total.bounds["mutators (model-vs-real, one step)"] = (
         f"all ordered forests with <= {3 if tier == 'quick' else 4} nodes x labelings over {{a,b,c}} (clones incl.), "
         f"trees of <= {3 if tier == 'quick' else 4} nodes reached by one change of a tree (<= {2 if tier == 'quick' else 3} nodes) whose accessors had all been evaluated, "
